@@ -74,16 +74,21 @@ fn judge(before: &[u8], after: &[u8]) -> Option<String> {
         Some(format!("{} of {} bytes of the caller's buffer changed", n, after.len()))
     }
 }
+// the error VALUE of a rejected open is something the caller sees too (the object API returns nothing else): its text is kept
+// here for the caller of the open function, which checks that it does not vary with the content of the rejected ciphertext
+thread_local! { static LAST_ERR: std::cell::RefCell<Option<String>> = std::cell::RefCell::new(None); }
+fn note_err(e: &dryoc::Error) { LAST_ERR.with(|l| *l.borrow_mut() = Some(format!("{:?} / {}", e, e))); }
+fn take_err() -> Option<String> { LAST_ERR.with(|l| l.borrow_mut().take()) }
 fn fin(r: Result<(), dryoc::Error>, buf: Vec<u8>, before: &[u8]) -> Opened {
     match r {
         Ok(()) => Opened { ok: true, msg: buf, leak: None },
-        Err(_) => Opened { ok: false, msg: vec![], leak: judge(before, &buf) },
+        Err(e) => { note_err(&e); Opened { ok: false, msg: vec![], leak: judge(before, &buf) } }
     }
 }
 fn obj<T: Bytes>(r: Result<T, dryoc::Error>) -> Opened {
     match r {
         Ok(m) => Opened { ok: true, msg: m.as_slice().to_vec(), leak: None },
-        Err(_) => Opened { ok: false, msg: vec![], leak: None },
+        Err(e) => { note_err(&e); Opened { ok: false, msg: vec![], leak: None } }
     }
 }
 fn es(e: dryoc::Error) -> String {
@@ -223,7 +228,7 @@ fn d_sb_open_easy_inplace(o: &Ops, w: &[u8]) -> Opened {
     let r = csb::crypto_secretbox_open_easy_inplace(&mut b, &o.nonce, &o.key);
     match r {
         Ok(()) => { b.truncate(w.len() - MAC); Opened { ok: true, msg: b, leak: None } }
-        Err(_) => Opened { ok: false, msg: vec![], leak: judge(w, &b) },
+        Err(e) => { note_err(&e); Opened { ok: false, msg: vec![], leak: judge(w, &b) } }
     }
 }
 
@@ -332,7 +337,7 @@ fn d_box_open_easy_inplace(o: &Ops, w: &[u8]) -> Opened {
     let r = cb::crypto_box_open_easy_inplace(&mut b, &o.nonce, &o.spk, &o.rsk);
     match r {
         Ok(()) => { b.truncate(w.len() - MAC); Opened { ok: true, msg: b, leak: None } }
-        Err(_) => Opened { ok: false, msg: vec![], leak: judge(w, &b) },
+        Err(e) => { note_err(&e); Opened { ok: false, msg: vec![], leak: judge(w, &b) } }
     }
 }
 fn d_box_open_detached_afternm(o: &Ops, w: &[u8]) -> Opened {
@@ -807,6 +812,7 @@ pub fn cmd_tamper(args: &[String]) {
     let first: usize = args[4].parse().unwrap();
     let stride: usize = args[5].parse().unwrap();
     let mut rows: std::collections::BTreeSet<(String, String, String)> = Default::default();
+    let mut err_texts: std::collections::HashMap<(String, usize), std::collections::HashSet<String>> = Default::default();
     for line in std::io::BufReader::new(std::fs::File::open(&args[0]).unwrap()).lines() {
         let c: Value = serde_json::from_str(&line.unwrap()).unwrap();
         let f = c["fault"].as_str().unwrap();
@@ -872,8 +878,18 @@ pub fn cmd_tamper(args: &[String]) {
                     let pre = on.contains("afternm") || on.contains("precalc");
                     if fault == "flip_key" && cons == "box" && !pre { continue; }  // the symmetric key of a box is its precomputed key
                     rep.evaluations += 1;
+                    take_err();
                     match catch(|| of(o2, c)) {
                         Ok(r) => {
+                            // C17: the error value of a rejected open carries nothing derived from the ciphertext - over all the
+                            // corruptions of one length presented to one entry point it takes a handful of values, not one per ciphertext
+                            if let (false, Some(t)) = (r.ok, take_err()) {
+                                let set = err_texts.entry((on.to_string(), c.len())).or_insert_with(std::collections::HashSet::new);
+                                set.insert(t.clone());
+                                if set.len() == 4 {
+                                    rep.fail(&format!("C17 {}: the error value of a rejected open varies with the rejected ciphertext", on), json!({"len": len, "wire_len": c.len(), "texts": set.iter().take(4).collect::<Vec<_>>(), "seed": seed}));
+                                }
+                            }
                             if fault == "none" {
                                 if !r.ok || r.msg != ops.msg { rep.fail(&format!("C02 {}: untampered input rejected", on), json!({"len": len, "seed": seed})); }
                             } else {
